@@ -1,5 +1,6 @@
 """Which bounded model, which harness configurations and which non-triviality rule serve which property."""
 import json
+import probes
 
 ELEM_ALPHA = ["push", "insert", "pop", "remove", "swap_remove", "typed", "clear", "get", "mutate", "hmutate", "ext_drop", "forget"]
 
@@ -196,6 +197,15 @@ def c12(tier):
             dict(model="elem", configs=cfgs(["heap160a32", "heap64n", "heap1n", "heap16d", "heap32d"], (R,)))]
 
 PLAN = {
+    "C15": dict(runner=probes.run_c15, level="model_checking", engine="tla-rules",
+                technique="TLA+ rule model of the auto-trait / constructor / method surface; TLC enumerates all cases; rustc verdicts compared",
+                claim="The TLA+ rule model (AnyVecTraits.tla) derives from first principles which types may be Send/Sync and which constructors "
+                      "and methods exist; TLC enumerates the whole space (8 constraint sets x 8 backends incl. four user backends that are !Send or "
+                      "!Sync in builder or Mem x element classes x 14 public vector/view/handle/iterator types x {Send, Sync}; every constructor x "
+                      "constraint set x element class; clone/reserve/shrink/with_capacity availability) and every case is decided by rustc against "
+                      "/repo's current tree: all Send/Sync queries in one compilation, one compile per must-compile / must-not-compile probe.",
+                rule="cases = all records of AnyVecTraits!Cases (TLC states); every case is one compiler query; distinct = distinct (type, trait, constraint set, backend, element class)",
+                note="The rule tables (which handle stands for which kind of reference) are transcribed from the public API by hand; rustc is trusted."),
     "C17": dict(campaigns=c17, level="model_checking",
                 claim="Every state of the bounded model x into_raw_parts -> (field-wise RawParts::clone) -> from_raw_parts on Heap and on the "
                       "zero-capacity Empty backend, every constraint class exercised by the configurations, repeated and interleaved with every "
